@@ -114,7 +114,11 @@ func parseJKSEntry(e keystore.Entry) Info {
 		}
 		certInfo, err := parseCertificate(c.Bytes)
 		if err != nil {
-			continue
+			// a certificate crypto/x509 cannot read (brainpool, secp256k1 or explicit-parameter keys, …) keeps its place
+			// in the entry: it is described as the same bytes are in a file of their own
+			if certInfo = parseDERData(c.Bytes); certInfo.Description == UnknownASN1Data.Description {
+				certInfo = parseASN1Data(c.Bytes)
+			}
 		}
 		info.Children = append(info.Children, certInfo)
 	}
